@@ -141,7 +141,7 @@ def _mk(kind: str, kids: list):
             return ('false',)
     if len(flat) == 1:
         return flat[0]
-    return (kind, sorted(flat, key=repr))
+    return (kind, tuple(sorted(flat, key=repr)))
 
 
 def neg(f):
